@@ -248,25 +248,9 @@ def rule_G(ctx):
     OT = absint.classref(ctx, 'tracklib.core.obs_time.ObsTime', fn)
     fn['atan2'], fn['hypot'] = math.atan2, math.hypot
 
-    class O(orders.PyStub):
-        isa = ('Obs',)
-
-        def __init__(self, k, pos, ts):
-            self.k = k
-            self.position = pos
-            self.timestamp = ts
-            self.features = []
-
-        def copy(self):
-            o = O(self.k, absint.deep_copy(self.position), absint.deep_copy(self.timestamp))
-            o.features = list(self.features)
-            return o
-
-        def distance2DTo(self, o):
-            return self.position.call('distance2DTo', o.position)
-
-        def distanceTo(self, o):
-            return self.position.call('distanceTo', o.position)
+    def O(k, pos, ts):
+        # the repository's own Obs (its distance methods and its copy are the code's), tagged with its rank
+        return absint.real_obs(ctx, fn, pos, ts, k=k)
 
     def stamp(sec_of_day, ms=0, day=15, year=2021, wrap=int):
         s = int(sec_of_day)
@@ -336,8 +320,8 @@ def rule_G(ctx):
         def state_of(t):
             out = []
             for o in t.fields['_Track__POINTS']:
-                p_, ts = o.position, o.timestamp
-                out.append((o.k, (p_.fields['E'], p_.fields['N'], p_.fields['U']),
+                p_, ts = o.fields['position'], o.fields['timestamp']
+                out.append((o.fields.get('k'), (p_.fields['E'], p_.fields['N'], p_.fields['U']),
                             (ts.fields['hour'] * 3600 + ts.fields['min'] * 60 + ts.fields['sec'], ts.fields['ms'], ts.fields['day'], ts.fields['year'])))
             return out
         for what, f, call, want, feat, tol in (('abs_curv', fa, 'computeAbsCurv', want_s, 'abs_curv', tol_s), ('speed', fs, 'estimate_speed', want_v, 'speed', tol_v)):
